@@ -281,6 +281,26 @@ Definition pb_step (st : option (list frame)) (e : ev) : option (list frame) :=
 Definition oracle_parse_budget (sc : scase) (log : list ev) : bool :=
   match fold_left pb_step log (Some (client_frames sc)) with Some _ => true | None => false end.
 
+(* likewise for COPY data: the payloads handed to a handler are, in order and each at most once, bodies of complete
+   CopyData messages the client sent within the limit *)
+Definition data_of (f : frame) : option bytes :=
+  match f with FMsg t body => if Byte.eqb t x64 then Some body else None | _ => None end.
+Fixpoint match_data (b : bytes) (fs : list frame) : option (list frame) :=
+  match fs with
+  | [] => None
+  | f :: r => match data_of f with
+              | Some b' => if bytes_eqb b b' then Some r else match_data b r
+              | None => match_data b r
+              end
+  end.
+Definition db_step (st : option (list frame)) (e : ev) : option (list frame) :=
+  match st, e with
+  | Some fs, CbOp (OData b) => match_data b fs
+  | _, _ => st
+  end.
+Definition oracle_data_budget (sc : scase) (log : list ev) : bool :=
+  match fold_left db_step log (Some (client_frames sc)) with Some _ => true | None => false end.
+
 (* ---------- C05: the inside of a simple-query cycle ---------- *)
 Record qstate := { q_err : bool; q_exec : bool; q_rows : Z; q_closed : bool;
                    q_pend : Z (* 0 none, 1 DataRow, 2 Complete, 3 CopyIn *); q_ok : bool }.
